@@ -103,8 +103,11 @@ def dense_state(psi):
 def ham_and_state(draw, Lmin=1, Lmax=5, dense_cap=256, Dmax=4, models=MODELS, styles=('complex', 'complex', 'real')):
     h = draw(ham_desc(Lmin=Lmin, Lmax=Lmax, dense_cap=dense_cap, models=models))
     qd = ham_qd(h)
-    psi = draw(mps_desc(Lmin=h['L'], Lmax=h['L'], qd=qd, q0=0, Dmax=Dmax, styles=list(styles), disjoint_prob=0, junk=False,
+    psi = draw(mps_desc(Lmin=h['L'], Lmax=h['L'], qd=qd, q0=draw(st.sampled_from([0, 0, 0, 1, -2])), Dmax=Dmax, styles=list(styles), disjoint_prob=0, junk=False,
                         dense_cap=10**9))
+    sc = draw(st.sampled_from([None, None, None, 1e-3, 50.0]))
+    if sc is not None:
+        psi['scale'] = sc
     return {'ham': h, 'psi': psi}
 
 
@@ -154,6 +157,8 @@ def complete_case(draw, Lmax=5, dense_cap=128, models=MODELS):
     L = h['L']
     path = draw(st.lists(st.integers(0, len(qd) - 1), min_size=L, max_size=L))
     qD, one_sided = complete_manifold(qd, L, path)
+    shift = draw(st.sampled_from([0, 0, 0, 3, -1]))
+    qD = [[q + shift for q in qs] for qs in qD]
     psi = {'qd': [int(q) for q in qd], 'qD': qD, 'seed': draw(st.integers(0, 2**31 - 1)), 'style': draw(st.sampled_from(['complex', 'complex', 'real']))}
     return {'ham': h, 'psi': psi, 'one_sided': [bool(x) for x in one_sided]}
 
